@@ -5,6 +5,7 @@ import (
 	"bytes"
 	"context"
 	"encoding/json"
+	"errors"
 	"fmt"
 	"io"
 	"os"
@@ -56,9 +57,15 @@ type c04Config struct {
 }
 
 type c04Op struct {
-	// K: up (upload blob index B of the derived pool) | remove | restart | check
+	// K: up (upload blob index B of the derived pool) | remove | restart | check |
+	// stream (a consumer of StreamBlobs reads up to N more blobs of its
+	// traversal - started by the first stream op, resumed by the following
+	// ones from the token of the last blob it read - and, at the end of the
+	// traversal, must have been handed every blob that was present from its
+	// start to its end, each with its bytes)
 	K    string `json:"k"`
 	B    int    `json:"b,omitempty"`
+	N    int    `json:"n,omitempty"`
 	Mode string `json:"mode,omitempty"` // restart: none | fast | full ; Wipe
 	Wipe bool   `json:"wipe,omitempty"`
 }
@@ -240,8 +247,22 @@ func genC04(tier string, run int, r *simcore.Rand) *harness.Plan {
 		sort.Ints(last)
 		order = append(first, last...)
 	}
-	for _, i := range order {
+	streamed := r.Bool(0.35)
+	started := false
+	for k, i := range order {
+		if _, isFile := w.isFile[i]; streamed && !started && (isFile || k == len(order)-1) && k > 0 {
+			// a StreamBlobs consumer reads a few blobs, the next upload
+			// (typically a file blob: it packs) happens, the consumer resumes
+			ops = append(ops, c04Op{K: "stream", N: r.Range(1, 4)})
+			started = true
+		}
 		ops = append(ops, c04Op{K: "up", B: i})
+		if started && r.Bool(0.3) {
+			ops = append(ops, c04Op{K: "stream", N: r.Range(1, 6)})
+		}
+	}
+	if started {
+		ops = append(ops, c04Op{K: "stream", N: 1 << 20})
 	}
 	ops = append(ops, c04Op{K: "check"})
 	modes := []string{"none", "fast", "full"}
@@ -274,6 +295,97 @@ type c04Run struct {
 	env     *sim.Env
 	rc      *harness.RunCtx
 	removed map[string]bool // logical blobs removed (acknowledged) — may resurrect after a full recovery (documented)
+	// the StreamBlobs consumer (stream ops)
+	strActive bool
+	strToken  string
+	strSeen   map[string]bool
+	strBase   map[string]bool // present when the traversal began
+}
+
+// streamStep reads up to n more blobs of the consumer's traversal.
+func (r *c04Run) streamStep(ctx context.Context, n int) (class, msg string) {
+	s := r.s
+	bs, ok := s.sto.(blobserver.BlobStreamer)
+	if !ok {
+		return "stream:not-a-streamer", "the packed store does not implement BlobStreamer"
+	}
+	if !r.strActive {
+		r.strActive, r.strToken, r.strSeen, r.strBase = true, "", map[string]bool{}, map[string]bool{}
+		for ref, st := range s.model.State {
+			if st == sim.Present {
+				r.strBase[ref] = true
+			}
+		}
+	}
+	var serr error
+	ended := false
+	bad := ""
+	herr := s.task(func() {
+		cctx, cancel := context.WithCancel(ctx)
+		defer cancel()
+		ch := make(chan blobserver.BlobAndToken, 1)
+		errc := make(chan error, 1)
+		go func() { errc <- bs.StreamBlobs(cctx, ch, r.strToken) }()
+		got := 0
+		for bt := range ch {
+			ref := bt.Blob.Ref().String()
+			b := s.byRef(ref)
+			if b == nil {
+				// zips of large are not logical blobs of this store
+				bad = "StreamBlobs presented " + ref + ", which was never uploaded"
+				cancel()
+				break
+			}
+			rc, rerr := bt.Blob.ReadAll(cctx)
+			if rerr != nil {
+				bad = fmt.Sprintf("StreamBlobs presented %s but reading it failed: %v", ref, rerr)
+				cancel()
+				break
+			}
+			data := slurp(rc)
+			if !bytes.Equal(data, b.Data) {
+				bad = fmt.Sprintf("StreamBlobs presented %s with %d bytes that are not the blob's (%d bytes)", ref, len(data), len(b.Data))
+				cancel()
+				break
+			}
+			r.strSeen[ref] = true
+			r.strToken = bt.Token
+			got++
+			if got >= n {
+				cancel()
+				break
+			}
+		}
+		for range ch {
+		}
+		serr = <-errc
+		if got < n && bad == "" && (serr == nil) {
+			ended = true
+		}
+	})
+	if herr != nil {
+		return "stream:hang", "StreamBlobs never returned"
+	}
+	if bad != "" {
+		return "stream:wrong-item", bad
+	}
+	if serr != nil && !errors.Is(serr, context.Canceled) {
+		return "stream:error", fmt.Sprintf("StreamBlobs(token %q) failed: %v", r.strToken, serr)
+	}
+	r.rcReach("stream-step")
+	if !ended {
+		return "", ""
+	}
+	// the traversal is over: everything present throughout was delivered
+	r.strActive = false
+	for _, ref := range sim.SortedKeys(r.strBase) {
+		if s.model.State[ref] != sim.Present || r.removed[ref] || r.strSeen[ref] {
+			continue
+		}
+		return "stream:missed-blob", fmt.Sprintf("a StreamBlobs traversal (resumed by continuation token, %d blobs delivered) never delivered %s, which was present from before it began until after it ended", len(r.strSeen), ref)
+	}
+	r.rcReach("stream-traversal-complete")
+	return "", ""
 }
 
 func (r *c04Run) applyKnobs() {
@@ -651,6 +763,7 @@ func execC04(rc *harness.RunCtx, p *harness.Plan, cfg *Config) *harness.Outcome 
 				}
 				r.removed[s.pool[op.B].Ref.String()] = true
 			case "restart":
+				r.strActive = false // a traversal does not survive the process
 				if msg := r.restart(op.Mode, op.Wipe, true); msg != "" {
 					return mk(i, "recover-failed", msg, ""), nil, ""
 				}
@@ -672,6 +785,13 @@ func execC04(rc *harness.RunCtx, p *harness.Plan, cfg *Config) *harness.Outcome 
 				}
 			case "check":
 				if cl, msg := r.sweep(ctx, "check"); cl != "" {
+					return mk(i, cl, msg, ""), nil, ""
+				}
+			case "stream":
+				if afterCrash {
+					continue // the consumer died with the process
+				}
+				if cl, msg := r.streamStep(ctx, op.N); cl != "" {
 					return mk(i, cl, msg, ""), nil, ""
 				}
 			}
@@ -768,6 +888,8 @@ func opStr(o c04Op) string {
 		return fmt.Sprintf("restart(%s,wipe=%v)", o.Mode, o.Wipe)
 	case "check":
 		return "check"
+	case "stream":
+		return fmt.Sprintf("stream(%d more)", o.N)
 	}
 	return fmt.Sprintf("%s[%d]", o.K, o.B)
 }
